@@ -26,9 +26,15 @@ pub fn resample_all_pre<T: Flt>(cfg: &Cfg, x: &[f64], pre: Option<f64>) -> Resul
 /// As `resample_all_pre`; with `rejected_first` the stream is preceded by one call that the
 /// resampler must reject (last input channel one frame short) and that must leave no trace.
 pub fn resample_all_pre2<T: Flt>(cfg: &Cfg, x: &[f64], pre: Option<f64>, rejected_first: bool) -> Result<Streamed, String> {
+    resample_all_opts::<T>(cfg, x, pre, false, rejected_first)
+}
+
+/// The general form: optional `set_resample_ratio_relative(pre, ramp)` on the fresh resampler,
+/// optional rejected call first.
+pub fn resample_all_opts<T: Flt>(cfg: &Cfg, x: &[f64], pre: Option<f64>, ramp: bool, rejected_first: bool) -> Result<Streamed, String> {
     let mut r = cfg.build::<T>()?;
     if let Some(rel) = pre {
-        r.set_resample_ratio_relative(rel, false).map_err(|e| format!("set_resample_ratio_relative({}) failed: {}", rel, e))?;
+        r.set_resample_ratio_relative(rel, ramp).map_err(|e| format!("set_resample_ratio_relative({}) failed: {}", rel, e))?;
     }
     if rejected_first {
         let need = r.input_frames_next();
